@@ -91,52 +91,204 @@ def const_str(e: ast.expr | None) -> str | None:
     return None
 
 
-def str_set(e: ast.expr | None, what: str) -> list[str] | None:
-    """A set / tuple / list display of string constants -> list in source order."""
-    if isinstance(e, (ast.Set, ast.Tuple, ast.List)):
-        out = []
+class _NotConst(Exception):
+    pass
+
+
+_ORDERED_SET = "oset"  # tag of an insertion-ordered set value (source order is kept)
+
+
+def const_eval(e: ast.expr | None, mod: ast.Module | None, depth: int = 0):
+    """Evaluate a module-level *constant expression* without running any code of /repo:
+    string constants; dict / set / list / tuple displays (with ** and * spreads); names of other
+    module-level constants; frozenset(..) / set(..) / tuple(..) / list(..) / dict(..) / sorted(..)
+    of such; `a | b` on sets and dicts; `a + b` on strings, lists and tuples.  Sets are kept as
+    lists in source order (tagged), dicts as (key, value) lists with Python's update semantics.
+    Anything else raises _NotConst (fail closed)."""
+    if depth > 20 or e is None:
+        raise _NotConst()
+    ev = lambda x: const_eval(x, mod, depth + 1)  # noqa: E731
+    if isinstance(e, ast.Constant):
+        if isinstance(e.value, str):
+            return e.value
+        raise _NotConst()
+    if isinstance(e, ast.Name):
+        if mod is None:
+            raise _NotConst()
+        v = find_assign(mod, e.id)
+        if v is None:
+            raise _NotConst()
+        return ev(v)
+    if isinstance(e, (ast.Set, ast.List, ast.Tuple)):
+        items: list = []
         for el in e.elts:
-            s = const_str(el)
-            if s is None:
-                unrec(f"{what}: non-literal element")
-                return None
-            out.append(s)
-        return out
-    unrec(f"{what}: not a literal collection")
+            if isinstance(el, ast.Starred):
+                sub = ev(el.value)
+                if isinstance(sub, tuple) and sub and sub[0] == _ORDERED_SET:
+                    sub = sub[1]
+                if not isinstance(sub, list):
+                    raise _NotConst()
+                items += sub
+            else:
+                items.append(ev(el))
+        if isinstance(e, ast.Set):
+            ded: list = []
+            for it in items:
+                if it not in ded:
+                    ded.append(it)
+            return (_ORDERED_SET, ded)
+        return items
+    if isinstance(e, ast.Dict):
+        out: list = []
+
+        def put(k, v) -> None:
+            for i, (k0, _) in enumerate(out):
+                if k0 == k:
+                    out[i] = (k, v)
+                    return
+            out.append((k, v))
+
+        for k, v in zip(e.keys, e.values):
+            if k is None:
+                sub = ev(v)
+                if not (isinstance(sub, tuple) and sub and sub[0] == "dict"):
+                    raise _NotConst()
+                for kk, vv in sub[1]:
+                    put(kk, vv)
+            else:
+                put(ev(k), ev(v))
+        return ("dict", out)
+    if isinstance(e, ast.Call) and isinstance(e.func, ast.Name) and not e.keywords:
+        f = e.func.id
+        if f in ("frozenset", "set", "tuple", "list", "sorted") and len(e.args) <= 1:
+            if not e.args:
+                return (_ORDERED_SET, []) if f in ("frozenset", "set") else []
+            sub = ev(e.args[0])
+            if isinstance(sub, tuple) and sub and sub[0] == _ORDERED_SET:
+                sub = sub[1]
+            elif isinstance(sub, tuple) and sub and sub[0] == "dict":
+                sub = [k for k, _ in sub[1]]
+            if not isinstance(sub, list):
+                raise _NotConst()
+            if f == "sorted":
+                if not all(isinstance(x, str) for x in sub):
+                    raise _NotConst()
+                return sorted(sub)
+            if f in ("frozenset", "set"):
+                ded = []
+                for it in sub:
+                    if it not in ded:
+                        ded.append(it)
+                return (_ORDERED_SET, ded)
+            return list(sub)
+        if f == "dict" and len(e.args) == 1:
+            sub = ev(e.args[0])
+            if isinstance(sub, tuple) and sub and sub[0] == "dict":
+                return ("dict", list(sub[1]))
+            raise _NotConst()
+        raise _NotConst()
+    if isinstance(e, ast.BinOp) and isinstance(e.op, ast.BitOr):
+        a, b = ev(e.left), ev(e.right)
+        if isinstance(a, tuple) and isinstance(b, tuple) and a and b and a[0] == b[0] == _ORDERED_SET:
+            return (_ORDERED_SET, a[1] + [x for x in b[1] if x not in a[1]])
+        if isinstance(a, tuple) and isinstance(b, tuple) and a and b and a[0] == b[0] == "dict":
+            res = list(a[1])
+            for k, v in b[1]:
+                for i, (k0, _) in enumerate(res):
+                    if k0 == k:
+                        res[i] = (k, v)
+                        break
+                else:
+                    res.append((k, v))
+            return ("dict", res)
+        raise _NotConst()
+    if isinstance(e, ast.BinOp) and isinstance(e.op, ast.Add):
+        a, b = ev(e.left), ev(e.right)
+        if isinstance(a, str) and isinstance(b, str):
+            return a + b
+        if isinstance(a, list) and isinstance(b, list):
+            return a + b
+        raise _NotConst()
+    raise _NotConst()
+
+
+def str_set(e: ast.expr | None, what: str, mod: ast.Module | None = None) -> list[str] | None:
+    """A constant collection of strings (see const_eval) -> list in source order."""
+    try:
+        v = const_eval(e, mod)
+    except _NotConst:
+        unrec(f"{what}: not a constant collection of strings")
+        return None
+    if isinstance(v, tuple) and v and v[0] == _ORDERED_SET:
+        v = v[1]
+    if isinstance(v, list) and all(isinstance(x, str) for x in v):
+        return list(v)
+    unrec(f"{what}: not a constant collection of strings")
     return None
 
 
-def str_dict(e: ast.expr | None, what: str, env: dict[str, list[tuple[str, str]]]):
-    """A dict display of str->str, with `**NAME` spreads resolved through env.
+def str_dict(e: ast.expr | None, what: str, mod: ast.Module | None = None):
+    """A constant str->str dict (see const_eval; `**NAME` spreads and `a | b` resolved).
     Returns the list of (key, value) in *insertion order with Python update
     semantics* (a repeated key keeps its first position, takes the last value)."""
-    if not isinstance(e, ast.Dict):
-        unrec(f"{what}: not a dict display")
+    try:
+        v = const_eval(e, mod)
+    except _NotConst:
+        unrec(f"{what}: not a constant dict of strings")
         return None
-    out: list[tuple[str, str]] = []
+    if (isinstance(v, tuple) and v and v[0] == "dict"
+            and all(isinstance(k, str) and isinstance(x, str) for k, x in v[1])):
+        return list(v[1])
+    unrec(f"{what}: not a constant dict of strings")
+    return None
 
-    def put(k: str, v: str) -> None:
-        for i, (k0, _) in enumerate(out):
-            if k0 == k:
-                out[i] = (k, v)
-                return
-        out.append((k, v))
 
-    for k, v in zip(e.keys, e.values):
-        if k is None:  # ** spread
-            if isinstance(v, ast.Name) and v.id in env:
-                for kk, vv in env[v.id]:
-                    put(kk, vv)
+def find_regex(fn: ast.FunctionDef, mod: ast.Module) -> str | None:
+    """The one regular expression a function applies: the constant first argument of its
+    re.<f>(PATTERN, ...) call, or the constant PATTERN of the module-level / local
+    `X = re.compile(PATTERN)` whose method it calls.  Local `name = <constant>` assignments are
+    resolved.  More than one distinct pattern, or none: None (fail closed)."""
+    local: dict[str, ast.expr] = {}
+    for node in ast.walk(fn):
+        if isinstance(node, ast.Assign) and len(node.targets) == 1 and isinstance(node.targets[0], ast.Name):
+            local[node.targets[0].id] = node.value
+
+    def value_of(e: ast.expr, depth: int = 0) -> str | None:
+        if depth > 5:
+            return None
+        if isinstance(e, ast.Name) and e.id in local:
+            return value_of(local[e.id], depth + 1)
+        if (isinstance(e, ast.Call) and isinstance(e.func, ast.Attribute) and e.func.attr == "compile"
+                and isinstance(e.func.value, ast.Name) and e.func.value.id == "re" and len(e.args) == 1):
+            return value_of(e.args[0], depth + 1)
+        if isinstance(e, ast.Name):
+            v = find_assign(mod, e.id)
+            return value_of(v, depth + 1) if v is not None else None
+        try:
+            v = const_eval(e, mod)
+        except _NotConst:
+            return None
+        return v if isinstance(v, str) else None
+
+    found: list[str] = []
+    METHODS = ("findall", "finditer", "search", "match", "fullmatch", "sub", "subn", "split")
+    for node in ast.walk(fn):
+        if isinstance(node, ast.Call) and isinstance(node.func, ast.Attribute) and node.func.attr in METHODS:
+            recv = node.func.value
+            if isinstance(recv, ast.Name) and recv.id == "re":
+                pat = value_of(node.args[0]) if node.args else None
             else:
-                unrec(f"{what}: unresolvable ** spread")
+                pat = value_of(recv)
+                if pat is None and not (isinstance(recv, ast.Name)):
+                    continue  # e.g. html.replace-like methods on other objects
+                if pat is None and isinstance(recv, ast.Name):
+                    # a method of the same name on a non-regex object (str.split ...): ignore
+                    continue
+            if pat is None:
                 return None
-        else:
-            ks, vs = const_str(k), const_str(v)
-            if ks is None or vs is None:
-                unrec(f"{what}: non-literal entry")
-                return None
-            put(ks, vs)
-    return out
+            if pat not in found:
+                found.append(pat)
+    return found[0] if len(found) == 1 else None
 
 
 REGEX_SPECIAL = set(".^$*+?{}[]\\|()")
@@ -284,15 +436,10 @@ def main(repo: str, outpath: str) -> int:
 
     # ---------------- _util.py
     util = parse(os.path.join(repo, "htmltools/_util.py"))
-    env: dict[str, list[tuple[str, str]]] = {}
     text_tab = attr_tab = None
     if util is not None:
-        text_tab = str_dict(find_assign(util, "HTML_ESCAPE_TABLE"), "HTML_ESCAPE_TABLE", env)
-        if text_tab is not None:
-            env["HTML_ESCAPE_TABLE"] = text_tab
-        attr_tab = str_dict(
-            find_assign(util, "HTML_ATTRS_ESCAPE_TABLE"), "HTML_ATTRS_ESCAPE_TABLE", env
-        )
+        text_tab = str_dict(find_assign(util, "HTML_ESCAPE_TABLE"), "HTML_ESCAPE_TABLE", util)
+        attr_tab = str_dict(find_assign(util, "HTML_ATTRS_ESCAPE_TABLE"), "HTML_ATTRS_ESCAPE_TABLE", util)
     out.append("(* HTML_ESCAPE_TABLE / HTML_ATTRS_ESCAPE_TABLE of htmltools/_util.py, in source (= iteration) order *)")
     escape_table_coq("text_table", text_tab, out)
     escape_table_coq("attr_table", attr_tab, out)
@@ -301,8 +448,8 @@ def main(repo: str, outpath: str) -> int:
     core = parse(os.path.join(repo, "htmltools/_core.py"))
     void = noesc = None
     if core is not None:
-        void = str_set(find_assign(core, "_VOID_TAG_NAMES"), "_VOID_TAG_NAMES")
-        noesc = str_set(find_assign(core, "_NO_ESCAPE_TAG_NAMES"), "_NO_ESCAPE_TAG_NAMES")
+        void = str_set(find_assign(core, "_VOID_TAG_NAMES"), "_VOID_TAG_NAMES", core)
+        noesc = str_set(find_assign(core, "_NO_ESCAPE_TAG_NAMES"), "_NO_ESCAPE_TAG_NAMES", core)
     out.append("(* _VOID_TAG_NAMES and _NO_ESCAPE_TAG_NAMES of htmltools/_core.py *)")
     out.append("Definition void_names : list (list N) :=\n  " + clist([cstr(s) for s in (void or [])], "(list N)") + ".")
     out.append("Definition void_names_recognised : bool := " + cbool(void is not None) + ".")
@@ -312,6 +459,7 @@ def main(repo: str, outpath: str) -> int:
     # serialiser: the `.replace(<lit>, <lit>)` applied to json.dumps(...) and the
     # extraction regex of HTMLTextDocument
     ser_from = ser_to = None
+    ser_pairs: list[tuple[str | None, str | None]] = []
     ser_keys: list[str] | None = None
     as_tags_order: list[str] | None = None
     regex = None
@@ -321,20 +469,24 @@ def main(repo: str, outpath: str) -> int:
             fn = find_def(dep.body, "serialize_to_script_json")
             if fn is not None:
                 for node in ast.walk(fn):
+                    # the (one) <string>.replace(<lit>, <lit>) of the function: applied to the
+                    # json.dumps(...) result directly or through a local variable
                     if (
                         isinstance(node, ast.Call)
                         and isinstance(node.func, ast.Attribute)
                         and node.func.attr == "replace"
-                        and isinstance(node.func.value, ast.Call)
-                        and isinstance(node.func.value.func, ast.Attribute)
-                        and node.func.value.func.attr == "dumps"
                         and len(node.args) == 2
+                        and not node.keywords
                     ):
-                        ser_from, ser_to = const_str(node.args[0]), const_str(node.args[1])
+                        pair = (const_str(node.args[0]), const_str(node.args[1]))
+                        if pair not in ser_pairs:
+                            ser_pairs.append(pair)
                     if isinstance(node, ast.Assign) and isinstance(node.value, ast.Dict):
                         ks = [const_str(k) for k in node.value.keys]
                         if all(k is not None for k in ks):
                             ser_keys = [k for k in ks if k is not None]
+            if len(ser_pairs) == 1:
+                ser_from, ser_to = ser_pairs[0]
             fn = find_def(dep.body, "as_html_tags")
             if fn is not None:
                 # return TagList(*metas, *links, *scripts, self.head)
@@ -358,13 +510,7 @@ def main(repo: str, outpath: str) -> int:
         if td is not None:
             fn = find_def(td.body, "_static_extract_serialized_html_deps")
             if fn is not None:
-                for node in fn.body:
-                    if (
-                        isinstance(node, ast.Assign)
-                        and isinstance(node.targets[0], ast.Name)
-                        and node.targets[0].id == "pattern"
-                    ):
-                        regex = const_str(node.value)
+                regex = find_regex(fn, core)
     # HTMLDependency.__init__: the literal key lists of  self._validate_dicts(<arg>, [<keys>])  in order,
     # and the keys tested on `source` ("href" in source) or ("subdir" in source)
     req_keys: list[tuple[str, list[str]]] = []
@@ -382,10 +528,18 @@ def main(repo: str, outpath: str) -> int:
                         req_keys.append((node.args[0].id, [k for k in ks if k is not None]))
                     else:
                         unrec("HTMLDependency.__init__: non-literal required-key list")
-                if (isinstance(node, ast.Compare) and len(node.ops) == 1 and isinstance(node.ops[0], ast.In)
-                        and const_str(node.left) is not None and isinstance(node.comparators[0], ast.Name)
-                        and node.comparators[0].id == "source"):
-                    src_keys.append(const_str(node.left) or "")
+    if core is not None and find_class(core, "HTMLDependency") is not None:
+        dep = find_class(core, "HTMLDependency")
+        # `"href" in source` / `"subdir" in source`: in __init__ or in a validation helper it calls
+        # (any method of the class whose name starts with _validate or is __init__)
+        for meth in dep.body:
+            if isinstance(meth, ast.FunctionDef) and (meth.name == "__init__" or meth.name.startswith("_validate")):
+                for node2 in ast.walk(meth):
+                    if (isinstance(node2, ast.Compare) and len(node2.ops) == 1 and isinstance(node2.ops[0], ast.In)
+                            and const_str(node2.left) is not None and isinstance(node2.comparators[0], ast.Name)
+                            and node2.comparators[0].id == "source"
+                            and (const_str(node2.left) or "") not in src_keys):
+                        src_keys.append(const_str(node2.left) or "")
     rk_rows = ["(" + cstr(a) + ", " + clist([cstr(k) for k in ks], "(list N)") + ")" for a, ks in req_keys]
     out.append("(* HTMLDependency.__init__: self._validate_dicts(ARG, [KEYS]) calls in order, and the keys looked up in `source` *)")
     out.append("Definition dep_required_keys : list (list N * list (list N)) :=\n  " + clist(rk_rows, "(list N * list (list N))") + ".")
@@ -401,10 +555,14 @@ def main(repo: str, outpath: str) -> int:
     out.append("(* argument order of the TagList returned by as_html_tags *)")
     out.append("Definition as_html_tags_order : list (list N) :=\n  " + clist([cstr(k) for k in (as_tags_order or [])], "(list N)") + ".")
     # regex = OPENER + "((?:.|\r|\n)*?)" + CLOSER
-    mid = r"((?:.|\r|\n)*?)"
+    # spellings of "a lazy run of any characters, captured" (each matches every character,
+    # newline included, in Python's re without flags)
+    MIDS = [r"((?:.|\r|\n)*?)", r"((?:.|\n|\r)*?)", r"((?:.|\n)*?)", r"((?:\n|.)*?)",
+            r"([\s\S]*?)", r"([\S\s]*?)", r"([\d\D]*?)", r"([\D\d]*?)", r"([\w\W]*?)", r"([\W\w]*?)"]
     opener = closer = None
-    if regex is not None and regex.count(mid) == 1:
-        opener, closer = regex.split(mid)
+    mids = [m for m in MIDS if regex is not None and regex.count(m) == 1]
+    if regex is not None and len(mids) == 1:
+        opener, closer = regex.split(mids[0])
         if any(c in REGEX_SPECIAL for c in opener + closer):
             unrec("extraction regex: special characters outside the lazy group")
             opener = closer = None
@@ -419,7 +577,7 @@ def main(repo: str, outpath: str) -> int:
     gen = parse(os.path.join(repo, "scripts/generate_tags.py"))
     inline = None
     if gen is not None:
-        inline = str_set(find_assign(gen, "_INLINE_TAG_NAMES"), "_INLINE_TAG_NAMES")
+        inline = str_set(find_assign(gen, "_INLINE_TAG_NAMES"), "_INLINE_TAG_NAMES", gen)
     out.append("(* _INLINE_TAG_NAMES of scripts/generate_tags.py: the project's inline/block classification *)")
     out.append("Definition inline_names : list (list N) :=\n  " + clist([cstr(s) for s in (inline or [])], "(list N)") + ".")
     out.append("Definition inline_names_recognised : bool := " + cbool(inline is not None) + ".")
@@ -468,7 +626,7 @@ def main(repo: str, outpath: str) -> int:
     ver = parse(os.path.join(repo, "htmltools/_versions.py"))
     versions = None
     if ver is not None:
-        versions = str_dict(find_assign(ver, "versions"), "versions", {})
+        versions = str_dict(find_assign(ver, "versions"), "versions", ver)
     rows = [f"({cstr(k)}, {cstr(v)})" for k, v in (versions or [])]
     out.append("(* htmltools/_versions.py *)")
     out.append("Definition lib_versions : list (list N * list N) :=\n  " + clist(rows, "(list N * list N)") + ".")
